@@ -51,11 +51,16 @@ def py_mod(a, b):
 
 
 def bitand_const(x, c):
-    # x & (2**k - 1) for x >= 0  ==  x mod 2**k   (obligation x>=0 is emitted by caller)
+    # x & (2**k - 1) == x mod 2**k (also for negative x: two's complement)
+    if c < 0:
+        raise Undecided("negative mask")
     k = c.bit_length()
-    if c != (1 << k) - 1:
-        raise Undecided("non-mask &")
-    return py_mod(x, 1 << k)
+    if c == (1 << k) - 1:
+        return py_mod(x, 1 << k)
+    if c & (c - 1) == 0:  # single bit 2**j:  ((x >> j) & 1) << j
+        j = c.bit_length() - 1
+        return py_mod(py_floordiv(x, 1 << j), 2) * (1 << j)
+    raise Undecided("non-mask &")
 
 
 class Path:
